@@ -248,6 +248,11 @@ def gen_case(r):
             msgs.append("".join(r.choice("abc|^\r\néЖ€\U0001f600 ") for _ in range(r.randrange(0, 20))))
         else:
             msgs.append(msgs[0] if msgs else b"same")
+    if r.random() < 0.08:
+        # long messages (histograms, images): beyond every buffer size, with multi-byte characters at the block boundaries
+        big = r.choice(["\u00b5" * 20000, "x" * 8191 + "\u20ac", "x" * 8190 + "\u00e9\u00e9" + "y" * 9000, b"\xff" * 70000,
+                        "z" * 65536, "\U0001f600" * 5000])
+        msgs[r.randrange(len(msgs))] = big
     clock = r.choice(["same", "same", "spread", "back"])
     if clock == "same":
         secs = [0]
